@@ -1649,8 +1649,11 @@ func (e *executor) executeRowBSIGroupShard(ctx context.Context, index string, c 
 		}
 
 		// LT[E] and GT[E] should return all not-null if selected range fully encompasses valid bsiGroup range.
-		if (cond.Op == pql.LT && value > bsig.Max) || (cond.Op == pql.LTE && value >= bsig.Max) ||
-			(cond.Op == pql.GT && value < bsig.Min) || (cond.Op == pql.GTE && value <= bsig.Min) {
+		// The range that matters is the one representable at the current bit depth
+		// (every stored value lies within it), not the field's declared min/max: a
+		// predicate between the two must not reach rangeOp with a clamped base value.
+		if (cond.Op == pql.LT && value > bsig.bitDepthMax()) || (cond.Op == pql.LTE && value >= bsig.bitDepthMax()) ||
+			(cond.Op == pql.GT && value < bsig.bitDepthMin()) || (cond.Op == pql.GTE && value <= bsig.bitDepthMin()) {
 			return frag.notNull()
 		}
 
